@@ -559,7 +559,9 @@ pub fn judge(edge: &Value, prop: &str) -> Verdict {
                             }
                         }
                         if let (Some(ca), Some(cb)) = (fin[t]["caps"].as_array(), before["caps"].as_array()) {
-                            if ca.len() == cb.len() && ca.iter().zip(cb).any(|(a, b)| a.as_u64() < b.as_u64()) {
+                            let tot = |a: &Vec<Value>| a.iter().map(|x| x.as_u64().unwrap_or(0)).sum::<u64>();
+                            // pairwise where the callbacks line up, as a total otherwise (their number is not part of the contract)
+                            if (ca.len() == cb.len() && ca.iter().zip(cb).any(|(a, b)| a.as_u64() < b.as_u64())) || tot(ca) < tot(cb) {
                                 v.fail("capacity-shrank-on-clear", json!({"before": cb, "after": ca}));
                             }
                         }
